@@ -129,7 +129,8 @@ def kernel_failures(seed, n):
         mat = np.full((2, 3, 3), np.nan)
         alt = float(rs.choice([0.0, 1e-300, 123.456, -431.0, 8848.86, 1e5 * rs.uniform(-1, 1)]))
         vd = 0.0 if k % 2 == 0 else float(rs.uniform(-50, 50))
-        lla[0] = [rs.uniform(-85, 85), rs.uniform(-180, 180), alt]
+        lat = rs.uniform(-85, 85) if k % 5 else rs.choice([-1, 1]) * rs.uniform(89.0, 89.99)
+        lla[0] = [lat, rs.uniform(-180, 180), alt]
         vel[0] = [rs.uniform(-300, 300), rs.uniform(-300, 300), vd]
         q = rs.normal(size=4)
         q /= np.linalg.norm(q)
@@ -152,9 +153,10 @@ def kernel_failures(seed, n):
 # ---------------------------------------------------------------------------
 # (3) error model / measurement models in 2D
 
-def _rand_pva(rs, vd=None, rates=False):
+def _rand_pva(rs, vd=None, rates=False, polar=False):
     from pyins.util import TRAJECTORY_COLS
-    vals = [rs.uniform(-80, 80), rs.uniform(-180, 180), rs.uniform(-100, 5000), rs.uniform(-50, 50),
+    lat = rs.choice([-1, 1]) * rs.uniform(89.0, 89.99) if polar else rs.uniform(-80, 80)
+    vals = [lat, rs.uniform(-180, 180), rs.uniform(-100, 5000), rs.uniform(-50, 50),
             rs.uniform(-50, 50), rs.uniform(-5, 5) if vd is None else vd,
             rs.uniform(-180, 180), rs.uniform(-80, 80), rs.uniform(-180, 180)]
     idx = list(TRAJECTORY_COLS)
@@ -173,14 +175,17 @@ def model_failures(seed, n):
     fails = []
     for k in range(n):
         rec = dict(kind='model', seed=seed, index=k)
-        pva = _rand_pva(rs, rates=(k % 2 == 1))
+        pva = _rand_pva(rs, rates=(k % 2 == 1), polar=(k % 4 >= 2))     # half of the states within 1 deg of a pole
+        rec['state'] = dict(lat=float(pva['lat']), lon=float(pva['lon']), alt=float(pva['alt']), VD=float(pva['VD']))
         T = em.transform_to_output(pva[pva.index[:9]])
         if T.shape != (9, 7) or np.any(T[2] != 0.0) or np.any(T[5] != 0.0):
             fails.append((f"transform_to_output (2D): rows down / VD are not zero: {T[2].tolist()} {T[5].tolist()}", rec))
-        x = rs.normal(size=7) * np.array([5, 5, 2, 2, 1e-2, 1e-2, 3e-2])
+        x = rs.normal(size=7) * np.array([5, 5, 2, 2, 1e-2, 1e-2, 3e-2]) * rs.choice([1.0, 30.0])
         c = em.correct_pva(pva[pva.index[:9]], x)
         if not same(c['alt'], pva['alt']) or not same(c['VD'], pva['VD']):
-            fails.append((f"correct_pva (2D) changed alt {pva['alt']!r}->{c['alt']!r} or VD {pva['VD']!r}->{c['VD']!r}", rec))
+            fails.append((f"correct_pva (2D) at lat {pva['lat']!r} with x = {x.tolist()} changed alt "
+                          f"{pva['alt']!r}->{c['alt']!r} or VD {pva['VD']!r}->{c['VD']!r}",
+                          dict(rec, correction=x.tolist())))
         lever = None if k % 3 == 0 else rs.uniform(-2, 2, 3)
         t = 5.0
         pos = pd.DataFrame([[pva.lat + 1e-5, pva.lon - 1e-5, pva.alt + 25.0]], index=[t], columns=LLA_COLS)
@@ -263,16 +268,20 @@ def _flag2d(seed):
     return [False, np.False_, 0][seed % 3]
 
 
-def filter_failures(seed, n_samples=300, compare=False):
+def filter_failures(seed, n_samples=300, compare=False, polar=False):
     from pyins import filters, sim, strapdown, measurements, inertial_sensor, transform
     fails = []
-    rec = dict(kind='filter', seed=seed, n_samples=n_samples)
+    rec = dict(kind='filter', seed=seed, n_samples=n_samples, polar=polar)
     rng = np.random.RandomState(seed % (2 ** 31))
     dt = 0.05
     total = n_samples * dt
     vmean = [rng.uniform(-3, 3), rng.uniform(-3, 3), 0.3]
+    lat0 = rng.uniform(-60, 60)
+    if polar:                                          # within 1 deg of a pole, both hemispheres
+        lat0 = (1 if seed % 2 else -1) * rng.uniform(89.2, 89.9)
+    rec['initial_lat'] = float(lat0)
     traj_true, imu_true = sim.generate_sine_velocity_motion(
-        0.5 * dt, total, [rng.uniform(-60, 60), rng.uniform(-170, 170), rng.uniform(0, 2000)], vmean,
+        0.5 * dt, total, [lat0, rng.uniform(-170, 170), rng.uniform(0, 2000)], vmean,
         [3, 3, 1.5], velocity_change_period=10, sensor_type='rate')
     pos_df = sim.generate_position_measurements(traj_true.iloc[1::40], 1.0, rng)
     vel_df = sim.generate_ned_velocity_measurements(traj_true.iloc[11::40], 0.3, rng)
@@ -371,9 +380,11 @@ def numeric(r, rng, quick):
         # seed % 3 selects the spelling of with_altitude=False, (seed // 3) % 2 the permuted measurement tables
         seed = 6 * rng.randrange(2 ** 26) + (4 if k == 0 else 5 if k == 1 else rng.randrange(6))
         try:
-            ff, info = filter_failures(seed, 300 if (quick or k % 2) else 800, compare=(k == 0 or not quick))
+            ff, info = filter_failures(seed, 300 if (quick or k % 2) else 800, compare=(k == 0 or not quick),
+                                       polar=(k % 2 == 1))
         except Exception as e:
-            ff, info = [(f"filters raised {type(e).__name__}: {e}", dict(kind='filter', seed=seed, n_samples=300))], {}
+            ff, info = [(f"filters raised {type(e).__name__}: {e}",
+                         dict(kind='filter', seed=seed, n_samples=300, polar=(k % 2 == 1)))], {}
         infos.append(info)
         r.case(('filter', seed), sample=dict(kind='filter', seed=seed, **info))
         found += ff[:3]
@@ -476,7 +487,7 @@ def falsify(r):
     for k in range(3):
         seed = rng.randrange(2 ** 30)
         try:
-            found += filter_failures(seed, 300)[0][:2]
+            found += filter_failures(seed, 300, compare=True, polar=(k % 2 == 1))[0][:2]
         except Exception as e:
             found.append((f"filters raised {type(e).__name__}: {e}", dict(kind='filter', seed=seed, n_samples=300)))
     for what, rec in found[:5]:
@@ -508,7 +519,7 @@ def replay(obj):
         print([w for w, _ in f] or "holds")
         return 1 if f else 0
     if kind == 'filter':
-        f, info = filter_failures(rep['seed'], rep.get('n_samples', 300), compare=True)
+        f, info = filter_failures(rep['seed'], rep.get('n_samples', 300), compare=True, polar=rep.get('polar', False))
         print(info)
         print([w for w, _ in f] or "holds")
         return 1 if f else 0
